@@ -934,7 +934,12 @@ def call_method(it, name, obj, args, kwargs):
                 if it.truth(has, None):
                     return Term("dict_get", (it.shared_name(obj), I._hashable(args[0])), "any")
                 return default
-            if I._has_abstract(args[0]):
+            if I._has_abstract(args[0]) or isinstance(args[0], AbstractValue):
+                if obj:
+                    # a constant, non-empty table looked up with a symbolic key (a dispatch table keyed by the class of a
+                    # generic coordinate, …): the key may be one of the table's keys — undecided, never "absent"
+                    raise AnalysisError(f"lookup of a symbolic key ({show(args[0])[:40]}) in a constant table with "
+                                        f"{len(obj)} entries: outside the fragment")
                 return default
             return obj.get(*args)
     raise AnalysisError(f"unmodelled method {name} on {show(obj)}")
